@@ -57,6 +57,8 @@ def encode(ex, v, depth=0):
         return {'$frac': [v.numerator, v.denominator]}
     if isinstance(v, EnumV):
         return {'$enum': v.cls.name, 'member': ex.index.enum_members(v.cls)[v.idx][0]}
+    if isinstance(v, FlagV):
+        return {'$flag': v.cls.name, 'bits': v.bits}
     if isinstance(v, tuple):
         return {'$tuple': [encode(ex, x, depth) for x in v]}
     if isinstance(v, list):
